@@ -7,6 +7,14 @@
 //                                                                      (every prefix is verified, so all lengths <= L)
 //   --mode random --seqs N [--minlen m] --maxlen M --seed S [--fresh]  random / adversarial sequences
 //   --mode emit   --cases N --seed S                                   pools written out by real emitters
+//   --mode fexh   --alpha K --len L [--shards N --shard I]             every sequence of length L over alphabet K with the
+//                                                                      j-th arena request of the p-th add() failing, for every
+//                                                                      p and every j reachable inside that add() (hook H1)
+//   --mode frandom --seqs N --seed S                                   random sequences with several refused requests each
+//
+// Allocation-failure histories (fexh / frandom): the pool's Arena is made to fail through hook H1
+// (asmjit_verif_arena_fail_fn) only while a ConstPool::add() of the history is running. A refused add() may have
+// registered nothing or a part; everything the pool hands out afterwards is held to the same statement as before.
 #include <asmjit/core.h>
 #include <asmjit/x86.h>
 #include <asmjit/a64.h>
@@ -78,11 +86,81 @@ struct Stats {
   uint64_t emit_cases = 0, emit_pools = 0, emit_exec = 0, emit_exec_bytes = 0;
   uint64_t by_size[7] = {0, 0, 0, 0, 0, 0, 0};
   std::map<std::string, uint64_t> emit_paths;
+  // allocation-failure histories
+  uint64_t fault_histories = 0;        // sequences with at least one refused add()
+  uint64_t fault_armed = 0;            // add() calls made with a failure armed
+  uint64_t fault_fired = 0;            // ... in which the armed request was really reached
+  uint64_t fault_swallowed = 0;        // ... and add() nevertheless returned kOk (gap bookkeeping)
+  uint64_t refused = 0;                // add() calls of a valid size that returned an error after an injected failure
+  uint64_t refused_left_bytes = 0;     // ... after which fill() shows the refused constant (it was registered)
+  uint64_t retries = 0;                // refused constants requested again without a failure
+  uint64_t retries_dedup = 0;          // ... answered without any arena request (found: registered by the refused call)
+  uint64_t retries_over_later = 0;     // ... answered with storage that narrower constants added in between share
+  uint64_t consts_after_refusal = 0;   // constants compared (offset, bytes) in an image taken after a refusal
+  uint64_t readd_after_refusal = 0;    // earlier constants added again after a refusal (same offset required)
+  uint64_t derived_after_refusal = 0;  // halves / quarters / new constants added after a refusal
+  uint64_t embeds_after_refusal = 0;   // embed_const_pool() of a pool that refused a request
+  uint64_t reuse_after_refusal = 0;    // histories on a pool object that was reset() after refusing a request
+  uint64_t max_requests_in_add = 0;
+  uint64_t refused_by_index[41] = {0};
+  std::map<std::string, uint64_t> refused_by_pos;
+  std::map<std::string, uint64_t> fault_embed_paths;
   std::unordered_set<uint64_t> distinct_nontrivial;
   std::vector<std::string> samples;
 };
 static Stats g_stats;
 static bool g_keep_hashes = true;
+
+// ---------------------------------------------------------------------------------------------------------
+// Fault control (hook H1). Requests are counted / failed only while an add() of a history is in progress, so the
+// arenas of CodeHolder / emitters are never touched.
+// ---------------------------------------------------------------------------------------------------------
+
+struct FaultCtl {
+  bool in_add = false;
+  uint64_t k = 0;            // fail the k-th request of this add() (1-based), 0 = none
+  bool sticky = false;       // ... and every later one of the same add()
+  uint64_t requests = 0;     // requests seen in this add()
+  uint64_t nodes = 0;        // node-sized requests seen in this add() (the first one is the constant's own node)
+  uint64_t fired = 0;        // failures injected in this add()
+  uint64_t fired_index = 0;  // ordinal of the first failed request
+  const char* fired_pos = "";
+  size_t gap_req = 0, node_req[7] = {0};
+  bool gap_distinct = true;
+  void init() {
+    gap_req = Arena::aligned_size(sizeof(ConstPool::Gap));
+    for (int i = 0; i < 7; i++) {
+      node_req[i] = Arena::aligned_size(sizeof(ConstPool::Node) + (size_t(1) << i));
+      if (node_req[i] == gap_req) gap_distinct = false;
+    }
+  }
+  void begin(uint64_t k_, bool sticky_) { in_add = true; k = k_; sticky = sticky_; requests = nodes = fired = fired_index = 0; fired_pos = ""; }
+  void end() { in_add = false; k = 0; }
+};
+static FaultCtl F;
+
+static bool fail_hook(size_t size) {
+  if (!F.in_add) return false;
+  F.requests++;
+  bool is_gap = F.gap_distinct && size == F.gap_req;
+  if (!is_gap) F.nodes++;
+  bool hit = F.k && (F.requests == F.k || (F.sticky && F.requests > F.k));
+  if (hit) {
+    if (!F.fired) {
+      F.fired_index = F.requests;
+      if (!F.gap_distinct) F.fired_pos = "gap-or-node";
+      else if (is_gap) F.fired_pos = "gap-record";
+      else if (F.nodes == 1) F.fired_pos = "own-node";
+      else if (size == F.node_req[5]) F.fired_pos = "shared-32-byte-node";
+      else if (size == F.node_req[4]) F.fired_pos = "shared-16-byte-node";
+      else F.fired_pos = "shared-8-or-4-byte-node";
+    }
+    F.fired++;
+  }
+  return hit;
+}
+
+struct FaultObs { bool armed; uint64_t k; bool sticky; uint64_t fired, fired_index, requests; const char* pos; };
 
 // ---------------------------------------------------------------------------------------------------------
 // Data feeder: the constant is handed to asmjit either flush against a poisoned region (an over-read of `data`
@@ -138,7 +216,12 @@ struct Entry {
   uint8_t b[64];
 };
 
-struct HistOp { size_t size; uint8_t nb; uint8_t b[64]; int64_t off; char kind; };
+// kind: N append, G gap / unowned storage, S shared slot, D dedup, I invalid size refused, F refused after an injected
+// allocation failure, P storage assigned by an earlier refused call (narrower constants share it since).
+// fk: the |fk|-th arena request of this add() was made to fail (negative: that one and all later ones of the add)
+struct HistOp { size_t size; uint8_t nb; uint8_t b[64]; int64_t off; char kind; int32_t fk; };
+
+struct PendingRefusal { size_t entries_at; size_t size; uint8_t b[64]; };
 
 struct Session {
   std::string ctx;                     // "" for the direct API, "emit:<path>:" for emitter paths
@@ -153,6 +236,13 @@ struct Session {
   bool failed = false;
   bool reused_pool = false;
   uint64_t hist_dropped = 0;
+  // allocation-failure histories
+  bool had_refusal = false;            // an add() of a valid size returned an error after an injected failure
+  bool had_swallowed = false;          // an injected failure did not make add() fail
+  bool pool_saw_refusal = false;       // the pool object refused a request before its last reset()
+  int32_t cur_fk = 0;
+  std::unordered_map<std::string, PendingRefusal> pending;  // refused constants not handed out yet
+  std::vector<uint8_t> ghost, ghost_img;                    // bytes of refused constants that fill() shows (registered by the refused call)
 
   explicit Session(const std::string& c = "") : ctx(c) {}
 
@@ -165,7 +255,8 @@ struct Session {
       snprintf(b, sizeof b, "%s[%llu,\"", i == from ? "" : ",", (unsigned long long)hist[i].size);
       h += b;
       h += hexstr(hist[i].b, hist[i].nb);
-      snprintf(b, sizeof b, "\",%lld,\"%c\"]", (long long)hist[i].off, hist[i].kind);
+      if (hist[i].fk) snprintf(b, sizeof b, "\",%lld,\"%c\",%d]", (long long)hist[i].off, hist[i].kind, int(hist[i].fk));
+      else snprintf(b, sizeof b, "\",%lld,\"%c\"]", (long long)hist[i].off, hist[i].kind);
       h += b;
     }
     return h + "]";
@@ -174,9 +265,16 @@ struct Session {
   void fail(const std::string& key0, const std::string& what) {
     failed = true;
     std::string key = ctx + key0;
+    if (had_refusal) key += ":after-refused-request";
+    else if (had_swallowed) key += ":after-swallowed-allocation-failure";
+    else if (pool_saw_refusal) key += ":pool-reset-after-refused-request";
     for (auto& v : g_viol) if (v.key == key) return;
     if (g_viol.size() >= 40) return;
-    g_viol.push_back({key, what + (reused_pool ? " (pool object reused after reset())" : " (fresh pool)") +
+    std::string note;
+    if (had_refusal || had_swallowed)
+      note = " [history with injected arena failures: 5th field n = the n-th arena request made inside that add() failed (negative: that one and all later ones of the call); kind F = add() returned an error]";
+    if (pool_saw_refusal) note += " [this pool object refused a request before its last reset()]";
+    g_viol.push_back({key, what + (reused_pool ? " (pool object reused after reset())" : " (fresh pool)") + note +
                                " adds_so_far=" + std::to_string(n_adds) + " history_tail[size,bytes,offset,kind]=" + describe_hist()});
   }
 
@@ -187,6 +285,8 @@ struct Session {
     if (h.nb) memcpy(h.b, it.bytes.data(), h.nb);
     h.off = off;
     h.kind = kind;
+    h.fk = cur_fk;
+    if (cur_fk) { hash = fnv1a(&cur_fk, sizeof cur_fk, hash); cur_fk = 0; }
     if (hist.size() >= 4096) { hist.erase(hist.begin(), hist.begin() + 2048); hist_dropped += 2048; }
     hist.push_back(h);
     uint64_t w = it.size;
@@ -195,7 +295,7 @@ struct Session {
   }
 
   // The oracle for one add(): `err`/`off` is what asmjit answered, `before` the pool state before the call.
-  void record(const Item& it, Error err, size_t off, const Snap& before, const ConstPool* pool, bool deep) {
+  void record(const Item& it, Error err, size_t off, const Snap& before, const ConstPool* pool, bool deep, const FaultObs* fo = nullptr) {
     n_adds++;
     g_stats.adds++;
     char sz[32];
@@ -222,10 +322,33 @@ struct Session {
 
     g_stats.valid_adds++;
     g_stats.by_size[log2u(it.size)]++;
+    if (fo && fo->fired) {
+      if (err != Error::kOk) {
+        // Refused request. The call may have registered nothing or a part (the constant itself and some of its shared
+        // sub-patterns); nothing is required of it except that what was handed out before stays intact.
+        if (!had_refusal) g_stats.fault_histories++;
+        had_refusal = true;
+        g_stats.refused++;
+        g_stats.refused_by_index[std::min<uint64_t>(fo->fired_index, 40)]++;
+        g_stats.refused_by_pos[fo->pos]++;
+        log(it, -1, 'F');
+        {
+          PendingRefusal pr;
+          pr.entries_at = entries.size();
+          pr.size = it.size;
+          memcpy(pr.b, it.bytes.data(), it.size);
+          pending.emplace(it.key(), pr);
+        }
+        note_refusal(*pool, it);
+        return;
+      }
+      had_swallowed = true;
+      g_stats.fault_swallowed++;
+    }
     if (err != Error::kOk) {
       log(it, -1, 'E');
       fail(std::string("valid-size-refused:") + sz, std::string("add() with valid ") + sz + " failed with error " + std::to_string(unsigned(err)) +
-           " although no allocation fault was injected");
+           (had_refusal || had_swallowed ? " although no arena request of this call was made to fail" : " although no allocation fault was injected"));
       return;
     }
     size_t size = it.size;
@@ -290,6 +413,13 @@ struct Session {
       if (off + size <= before.size) { kind = 'G'; n_gap++; g_stats.gap_reuse++; }
       else { kind = 'N'; n_append++; g_stats.append++; }
     }
+    else if (!conflict && overlap_explained_by_refusal(it, off)) {
+      // A refused call had assigned this storage already - to this constant or to a wider one this constant is an aligned
+      // slice of (both findable since then); the narrower constants handed out in between were placed into it as shared
+      // slots with equal bytes.
+      kind = 'P';
+      g_stats.retries_over_later++;
+    }
     else {
       log(it, int64_t(off), 'X');
       fail(std::string("distinct-storage-overlap:") + sz, std::string("new constant ") + hexstr(it.bytes.data(), size) + " (" + sz + ") was given offset " +
@@ -298,6 +428,14 @@ struct Session {
       return;
     }
     log(it, int64_t(off), kind);
+    {
+      auto pf = pending.find(k);
+      if (pf != pending.end()) {
+        g_stats.retries++;
+        if (fo && fo->requests == 0) g_stats.retries_dedup++;
+        pending.erase(pf);
+      }
+    }
     for (size_t i = 0; i < size; i++) { img[off + i] = it.bytes[i]; known[off + i] = 1; }
     Entry e;
     e.off = off;
@@ -312,14 +450,70 @@ struct Session {
     max_end = std::max(max_end, off + size);
   }
 
-  // add() through the direct API.
-  void add_direct(ConstPool& pool, const Item& it, bool deep, bool odd_ptr) {
+  // A new constant came back with an offset whose bytes partly belong to other constants (equal bytes). Fine iff a
+  // refused, not yet handed out constant R explains it: the new constant is R itself or an aligned slice of R at a
+  // position consistent with one R-aligned placement of R, and everything it overlaps is narrower, lies completely
+  // inside and was handed out after R was refused (i.e. was shared into R's storage).
+  bool overlap_explained_by_refusal(const Item& it, size_t off) const {
+    size_t size = it.size;
+    for (auto& kv : pending) {
+      const PendingRefusal& R = kv.second;
+      if (R.size < size) continue;
+      for (size_t pos = 0; pos < R.size; pos += size) {
+        if (off < pos || (off - pos) % R.size != 0 || memcmp(R.b + pos, it.bytes.data(), size) != 0) continue;
+        uint8_t cov[64] = {0};
+        for (size_t i = R.entries_at; i < entries.size(); i++) {
+          const Entry& e = entries[i];
+          if (e.size < size && e.off >= off && e.off + e.size <= off + size) memset(cov + (e.off - off), 1, e.size);
+        }
+        bool ok = true;
+        for (size_t i = 0; i < size && ok; i++) if (known[off + i] && !cov[i]) ok = false;
+        if (ok) return true;
+      }
+    }
+    return false;
+  }
+
+  // After a refused add(): bytes of the refused constant that fill() shows in storage owned by nobody are remembered
+  // (the call registered the constant before it failed) so that they are not taken for garbage in a gap.
+  void note_refusal(const ConstPool& pool, const Item& it) {
+    size_t n = pool.size();
+    size_t size = it.size;
+    if (!n) return;
+    std::vector<uint8_t> b(n, 0x55);
+    pool.fill(b.data());
+    if (img.size() < n) { img.resize(n, 0); known.resize(n, 0); }
+    if (ghost.size() < n) { ghost.resize(n, 0); ghost_img.resize(n, 0); }
+    bool any = false;
+    for (size_t i = 0; i < n; i++) {
+      if (known[i] || b[i] == 0 || (ghost[i] && ghost_img[i] == b[i])) continue;
+      size_t o = i & ~(size - 1);
+      if (o + size > n || memcmp(b.data() + o, it.bytes.data(), size) != 0) continue;  // left to verify_fill()
+      for (size_t j = 0; j < size; j++) if (!known[o + j]) { ghost[o + j] = 1; ghost_img[o + j] = it.bytes[j]; }
+      any = true;
+    }
+    if (any) g_stats.refused_left_bytes++;
+  }
+
+  // add() through the direct API. fault_k != 0: the fault_k-th arena request made inside this call fails (sticky: and
+  // every later one of this call).
+  Error add_direct(ConstPool& pool, const Item& it, bool deep, bool odd_ptr, uint64_t fault_k = 0, bool sticky = false) {
     Snap before = take_snap(&pool, deep && !valid_size(it.size));
     const uint8_t* p = g_feed.put(it, odd_ptr);
     size_t off = size_t(0xDEADBEEFDEADull);
+    F.begin(fault_k, sticky);
     Error err = pool.add(p, it.size, Out<size_t>(off));
+    F.end();
     g_feed.scribble();
-    record(it, err, off, before, &pool, deep);
+    FaultObs fo{fault_k != 0, fault_k, sticky, F.fired, F.fired_index, F.requests, F.fired_pos};
+    g_stats.max_requests_in_add = std::max(g_stats.max_requests_in_add, F.requests);
+    if (fault_k) {
+      g_stats.fault_armed++;
+      if (F.fired) { g_stats.fault_fired++; cur_fk = sticky ? -int32_t(fault_k) : int32_t(fault_k); }
+    }
+    record(it, err, off, before, &pool, deep, &fo);
+    cur_fk = 0;
+    return err;
   }
 
   // Checks the scalar accessors and an image (`image` = n bytes that are claimed to be the written-out pool).
@@ -348,12 +542,13 @@ struct Session {
     size_t m = std::min(n, img.size());
     for (size_t i = 0; i < n; i++) {
       bool kn = i < m && known[i];
-      if (!kn && image[i] != 0) {
+      if (!kn && image[i] != 0 && !(i < ghost.size() && ghost[i] && ghost_img[i] == image[i])) {
         fail("gap-not-zero", std::string(where) + ": byte " + std::to_string(i) + " belongs to no constant but is 0x" + hexstr(image + i, 1) + " (size() = " + std::to_string(n) + ")");
         return false;
       }
     }
     g_stats.bytes_compared += n;
+    if (had_refusal) g_stats.consts_after_refusal += entries.size();
     return true;
   }
 
@@ -392,6 +587,7 @@ struct PoolHolder {
   std::unique_ptr<Arena> arena;
   std::unique_ptr<ConstPool> pool;
   bool reused = false;
+  bool saw_refusal = false;   // this pool object refused a request (stays set over reset(): that is the point)
   uint64_t uses = 0;
 
   void fresh(size_t block) {
@@ -399,6 +595,7 @@ struct PoolHolder {
     arena.reset(new Arena(block));
     pool.reset(new ConstPool(*arena));
     reused = false;
+    saw_refusal = false;
   }
   // mode 0: pool.reset() + arena.reset(); 1: pool.reset() only (arena keeps old nodes); 2: new ConstPool on the reset arena
   bool recycle(int mode, Session* last) {
@@ -418,6 +615,7 @@ struct PoolHolder {
       Session s;
       if (last) s.hist = last->hist;
       s.reused_pool = true;
+      s.pool_saw_refusal = saw_refusal;
       s.fail("reset-residue", "after reset(): size() = " + std::to_string(pool->size()) + " alignment() = " + std::to_string(pool->alignment()));
       return false;
     }
@@ -745,6 +943,11 @@ static void check_section(Session& s, CodeHolder& code, uint32_t label_id, size_
     s.fail("pool-label-misaligned", std::string(where) + ": pool label bound at section offset " + std::to_string(lo) + " but alignment() = " + std::to_string(pool_alignment));
     return;
   }
+  if (s.max_size > 1 && lo % s.max_size != 0) {
+    s.fail("pool-label-misaligned-for-largest-constant", std::string(where) + ": pool label bound at section offset " + std::to_string(lo) +
+           " but a constant of size " + std::to_string(s.max_size) + " was handed out (alignment() = " + std::to_string(pool_alignment) + ")");
+    return;
+  }
   if (lo + pool_size > sect->buffer_size()) {
     s.fail("pool-past-section-end", std::string(where) + ": label offset " + std::to_string(lo) + " + size() " + std::to_string(pool_size) + " > section size " + std::to_string(sect->buffer_size()));
     return;
@@ -1041,12 +1244,283 @@ static void run_emit(const Args& args) {
   }
 }
 
+
+// ---------------------------------------------------------------------------------------------------------
+// Allocation-failure histories
+// ---------------------------------------------------------------------------------------------------------
+
+// embed_const_pool() of a user-owned pool through one of four emitters behind `junk` bytes: the label must be bound
+// at an offset aligned to the largest constant handed out and the section bytes must be the pool.
+static void embed_check(Session& s, const ConstPool& pool, unsigned which, unsigned junk) {
+  if (s.failed || pool.size() == 0) return;
+  static const char* names[4] = {"x86::Assembler", "x86::Builder", "a64::Assembler", "a64::Builder"};
+  static const char* ctxs[4] = {"embed:x86-assembler:", "embed:x86-builder:", "embed:a64-assembler:", "embed:a64-builder:"};
+  which &= 3;
+  Environment env(which < 2 ? ((junk & 1) ? Arch::kX64 : Arch::kX86) : Arch::kAArch64);
+  CodeHolder code;
+  if (code.init(env) != Error::kOk) return;
+  std::unique_ptr<BaseEmitter> em;
+  if (which == 0) em.reset(new x86::Assembler());
+  else if (which == 1) em.reset(new x86::Builder());
+  else if (which == 2) em.reset(new a64::Assembler());
+  else em.reset(new a64::Builder());
+  if (code.attach(em.get()) != Error::kOk) return;
+  uint8_t jb[96];
+  memset(jb, 0xCC, sizeof jb);
+  junk %= 96;
+  if (junk && em->embed(jb, junk) != Error::kOk) return;
+  std::string saved = s.ctx;
+  s.ctx = ctxs[which];
+  Label L = em->new_label();
+  Error err = em->embed_const_pool(L, pool);
+  if (err != Error::kOk) s.fail("embed-failed", std::string(names[which]) + "::embed_const_pool() failed with error " + std::to_string(unsigned(err)));
+  if (!s.failed && (which & 1)) {
+    Error ferr = em->finalize();
+    if (ferr != Error::kOk) s.fail("finalize-failed", std::string(names[which]) + "::finalize() failed with error " + std::to_string(unsigned(ferr)));
+  }
+  if (!s.failed) {
+    std::string where = std::string(names[which]) + " embed_const_pool bytes behind " + std::to_string(junk) + " byte(s)";
+    check_section(s, code, L.id(), pool.size(), pool.alignment(), where.c_str());
+    if (!s.failed) {
+      g_stats.fault_embed_paths[names[which]]++;
+      if (s.had_refusal) g_stats.embeds_after_refusal++;
+    }
+  }
+  s.ctx = saved;
+}
+
+// Halves and outer quarters of `it` (what a caller that lost the wide constant would ask for instead).
+static std::vector<Item> parts_of(const Item& it) {
+  std::vector<Item> v;
+  if (!valid_size(it.size) || it.size < 2) return v;
+  size_t h = it.size / 2;
+  v.push_back(mk_item(h, it.bytes.data(), h));
+  v.push_back(mk_item(h, it.bytes.data() + h, h));
+  if (it.size >= 4) {
+    size_t q = it.size / 4;
+    v.push_back(mk_item(q, it.bytes.data() + it.size - q, q));
+    v.push_back(mk_item(q, it.bytes.data() + q, q));
+  }
+  return v;
+}
+
+// What every failure history ends with: all refused constants are requested again (must be handed out now), halves /
+// quarters of wide constants and new narrow constants (gap fillers) are added, every constant ever handed out is
+// added again (same offset), a fresh fill() and an embed through a real emitter are compared with the model.
+static void fault_epilogue(Session& s, PoolHolder& ph, uint64_t salt, bool retry_pending) {
+  ConstPool& pool = *ph.pool;
+  bool after = s.had_refusal;
+  if (retry_pending && !s.failed) {
+    std::vector<Item> todo;
+    for (size_t i = 0; i < s.hist.size(); i++)
+      if (s.hist[i].kind == 'F') todo.push_back(mk_item(s.hist[i].size, s.hist[i].b, s.hist[i].nb));
+    for (auto& it : todo) {
+      if (s.failed) break;
+      if (!s.pending.count(it.key())) continue;
+      s.add_direct(pool, it, true, false);
+      if (!s.failed) s.verify_fill(pool, false);
+    }
+  }
+  if (!s.failed) {
+    std::vector<Entry> es = s.entries;
+    size_t lim = 0;
+    for (size_t i = 0; i < es.size() && !s.failed && lim < 24; i++) {
+      if (es[i].size < 8) continue;
+      Item w = mk_item(es[i].size, es[i].b, es[i].size);
+      for (auto& part : parts_of(w)) {
+        if (s.failed) break;
+        s.add_direct(pool, part, false, ((salt + i) & 3) == 1);
+        if (after) g_stats.derived_after_refusal++;
+        lim++;
+      }
+    }
+    static const size_t fresh_sizes[] = {1, 2, 4, 8, 1, 16};
+    for (unsigned j = 0; j < 6 && !s.failed; j++) {
+      uint8_t b[16];
+      for (unsigned q = 0; q < 16; q++) b[q] = uint8_t(0xE1 + 7 * j + 31 * q + (salt & 1));
+      s.add_direct(pool, mk_item(fresh_sizes[j], b, fresh_sizes[j]), false, false);
+      if (after) g_stats.derived_after_refusal++;
+    }
+    if (!s.failed) s.verify_fill(pool, false);
+  }
+  if (!s.failed) {
+    std::vector<Entry> es = s.entries;
+    for (size_t i = 0; i < es.size() && !s.failed; i++) {
+      s.add_direct(pool, mk_item(es[i].size, es[i].b, es[i].size), false, false);
+      g_stats.readd_checks++;
+      if (after) g_stats.readd_after_refusal++;
+    }
+  }
+  if (!s.failed) s.verify_fill(pool, true);
+  if (!s.failed) embed_check(s, pool, unsigned(salt), unsigned(salt >> 2) * 7 + 1);
+  g_stats.max_pool_size = std::max<uint64_t>(g_stats.max_pool_size, pool.size());
+}
+
+// Prepares the pool object for the next history: mostly the same object after reset() (it refused requests before).
+static bool fault_next_pool(PoolHolder& ph, Session* last, uint64_t n, bool force_fresh) {
+  if (force_fresh || !ph.pool || n % 5 == 0) { ph.fresh((n / 5) % 2 ? 1024 : 4096); return true; }
+  bool saw = ph.saw_refusal;
+  if (!ph.recycle(int(n % 3), last)) return false;
+  ph.saw_refusal = saw;
+  if (saw) g_stats.reuse_after_refusal++;
+  g_stats.pool_reuse++;
+  return true;
+}
+
+// One enumerated history: seq[0..L) on one pool, the k-th arena request of add #pos fails (sticky: and all later ones of
+// that call). variant 0: the refused constant is requested again at once; 1: its halves / quarters first, then again;
+// 2: the rest of the sequence first, again at the end. Returns false if request k was never reached.
+static bool run_fault_history(PoolHolder& ph, const std::vector<Item>& A, const std::vector<unsigned>& digits, unsigned L,
+                              unsigned pos, uint64_t k, bool sticky, unsigned variant, uint64_t n, Session** last, std::unique_ptr<Session>& keep) {
+  if (!fault_next_pool(ph, *last, n, false)) return false;
+  std::unique_ptr<Session> s(new Session());
+  s->reused_pool = ph.reused;
+  s->pool_saw_refusal = ph.saw_refusal;
+  ConstPool& pool = *ph.pool;
+  bool fired = false;
+  for (unsigned i = 0; i < L && !s->failed; i++) {
+    const Item& it = A[digits[i]];
+    if (i != pos) {
+      s->add_direct(pool, it, true, ((n + i) & 3) == 3);
+      if (!s->failed) s->verify_fill(pool, false);
+      continue;
+    }
+    uint64_t fired0 = g_stats.fault_fired;
+    Error err = s->add_direct(pool, it, true, false, k, sticky);
+    fired = g_stats.fault_fired != fired0;
+    if (!s->failed) s->verify_fill(pool, false);
+    if (err == Error::kOk || !valid_size(it.size) || s->failed) continue;
+    if (variant == 1) {
+      for (auto& part : parts_of(it)) {
+        if (s->failed) break;
+        s->add_direct(pool, part, true, false);
+        if (!s->failed) s->verify_fill(pool, false);
+      }
+    }
+    if (variant <= 1 && !s->failed) {
+      s->add_direct(pool, it, true, false);
+      if (!s->failed) s->verify_fill(pool, false);
+    }
+  }
+  fault_epilogue(*s, ph, n, true);
+  if (s->had_refusal) ph.saw_refusal = true;
+  finish_sequence(*s, size_t(s->n_adds));
+  if (g_stats.samples.size() < 3 && s->had_refusal && !s->failed && variant == 1 && s->hist.size() <= 40 && (n % 97) == 0)
+    g_stats.samples.push_back(s->describe_hist());
+  bool failed = s->failed;
+  keep = std::move(s);
+  *last = keep.get();
+  if (failed) { ph.pool.reset(); ph.arena.reset(); }
+  return fired;
+}
+
+static void run_fexh(const Args& args) {
+  unsigned alpha = unsigned(args.u64("alpha", 0));
+  unsigned L = unsigned(args.u64("len", 3));
+  uint64_t shards = args.u64("shards", 1), shard = args.u64("shard", 0);
+  std::vector<Item> A = alphabet(alpha);
+  size_t K = A.size();
+  uint64_t total = 1;
+  for (unsigned i = 0; i < L; i++) total *= K;
+  g_keep_hashes = false;  // (sequence, position, request, sticky, variant) are distinct by construction
+  PoolHolder ph;
+  std::vector<unsigned> digits(L);
+  Session* last = nullptr;
+  std::unique_ptr<Session> keep;
+  uint64_t n = 0;
+  for (uint64_t idx = shard; idx < total && g_viol.size() < 8; idx += shards) {
+    uint64_t x = idx;
+    for (unsigned i = 0; i < L; i++) { digits[i] = unsigned(x % K); x /= K; }
+    for (unsigned pos = 0; pos < L; pos++) {
+      if (!valid_size(A[digits[pos]].size)) continue;  // refused before any arena request
+      for (unsigned sticky = 0; sticky < 2; sticky++) {
+        for (uint64_t k = 1; k <= 64 && g_viol.size() < 8; k++) {
+          bool fired = true;
+          for (unsigned variant = 0; variant < 3 && fired; variant++)
+            fired = run_fault_history(ph, A, digits, L, pos, k, sticky != 0, variant, ++n, &last, keep);
+          if (!fired) break;
+        }
+      }
+    }
+  }
+}
+
+static void run_frandom(const Args& args) {
+  uint64_t seqs = args.u64("seqs", 100);
+  Rng top(args.u64("seed", 1));
+  PoolHolder ph;
+  Session* last = nullptr;
+  std::unique_ptr<Session> keep;
+  for (uint64_t n = 1; n <= seqs && g_viol.size() < 8; n++) {
+    Rng r = top.fork(n);
+    Gen g(r.fork(1));
+    g.setup(unsigned(r.below(6)));
+    if (r.chance(1, 2)) g.pattern.clear();
+    size_t len = r.chance(3, 4) ? size_t(r.range(1, 16)) : size_t(r.range(17, 80));
+    if (!fault_next_pool(ph, last, r.next(), r.chance(1, 6))) break;
+    std::unique_ptr<Session> s(new Session());
+    s->reused_pool = ph.reused;
+    s->pool_saw_refusal = ph.saw_refusal;
+    ConstPool& pool = *ph.pool;
+    unsigned p_fault = unsigned(r.range(5, 50));
+    bool noise = r.chance(1, 3);
+    std::vector<Item> deferred;
+    for (size_t i = 0; i < len && !s->failed; i++) {
+      Item it = g.next(unsigned(i));
+      uint64_t k = 0;
+      bool sticky = false;
+      if (r.below(100) < p_fault) { k = r.chance(1, 2) ? r.range(1, 4) : r.range(1, 40); sticky = r.chance(1, 2); }
+      Error err = s->add_direct(pool, it, true, r.chance(1, 4), k, sticky);
+      if (!s->failed) s->verify_fill(pool, false);
+      if (noise && r.chance(1, 4)) {
+        size_t sz = Arena::aligned_size(size_t(r.range(1, 200)));
+        void* p = ph.arena->alloc_oneshot<void>(sz);
+        if (p) memset(p, 0xEE, sz);
+      }
+      if (err == Error::kOk || !valid_size(it.size) || s->failed) {
+        // now and then an earlier refused constant is requested again in the middle of the history
+        if (!deferred.empty() && r.chance(1, 5) && !s->failed) {
+          size_t j = size_t(r.below(deferred.size()));
+          uint64_t k2 = r.chance(1, 4) ? r.range(1, 40) : 0;   // the retry itself may be refused again
+          if (s->add_direct(pool, deferred[j], true, false, k2, r.chance(1, 2)) == Error::kOk) deferred.erase(deferred.begin() + j);
+          if (!s->failed) s->verify_fill(pool, false);
+        }
+        continue;
+      }
+      unsigned what = unsigned(r.below(10));
+      if (what < 2) {
+        for (auto& part : parts_of(it)) {
+          if (s->failed) break;
+          s->add_direct(pool, part, true, false);
+        }
+      }
+      if (what < 6 && !s->failed) {
+        if (s->add_direct(pool, it, true, r.chance(1, 4)) != Error::kOk) {}
+        if (!s->failed) s->verify_fill(pool, false);
+      }
+      else deferred.push_back(it);
+    }
+    fault_epilogue(*s, ph, r.next(), !r.chance(1, 5));
+    if (s->had_refusal) ph.saw_refusal = true;
+    finish_sequence(*s, size_t(s->n_adds));
+    if (g_stats.samples.size() < 2 && s->had_refusal && !s->failed && s->hist.size() <= 32 && s->n_share) g_stats.samples.push_back(s->describe_hist());
+    bool failed = s->failed;
+    keep = std::move(s);
+    last = keep.get();
+    if (failed) { ph.pool.reset(); ph.arena.reset(); }
+  }
+}
+
 // ---------------------------------------------------------------------------------------------------------
 
 int main(int argc, char** argv) {
   Args args(argc, argv);
   std::string mode = args.str("mode", "random");
+  F.init();
+  asmjit_verif_arena_fail_fn = fail_hook;
   if (mode == "exh") run_exh(args);
+  else if (mode == "fexh") run_fexh(args);
+  else if (mode == "frandom") run_frandom(args);
   else if (mode == "random") run_random(args);
   else if (mode == "emit") run_emit(args);
   else { fprintf(stderr, "unknown mode\n"); return 2; }
@@ -1078,6 +1552,28 @@ int main(int argc, char** argv) {
   num("emit_pools", g_stats.emit_pools);
   num("emit_exec", g_stats.emit_exec);
   num("emit_exec_bytes", g_stats.emit_exec_bytes);
+  num("fault_histories", g_stats.fault_histories);
+  num("fault_armed", g_stats.fault_armed);
+  num("fault_fired", g_stats.fault_fired);
+  num("fault_swallowed", g_stats.fault_swallowed);
+  num("refused", g_stats.refused);
+  num("refused_left_bytes", g_stats.refused_left_bytes);
+  num("retries", g_stats.retries);
+  num("retries_dedup", g_stats.retries_dedup);
+  num("retries_over_later", g_stats.retries_over_later);
+  num("consts_after_refusal", g_stats.consts_after_refusal);
+  num("readd_after_refusal", g_stats.readd_after_refusal);
+  num("derived_after_refusal", g_stats.derived_after_refusal);
+  num("embeds_after_refusal", g_stats.embeds_after_refusal);
+  num("reuse_after_refusal", g_stats.reuse_after_refusal);
+  num("max_requests_in_add", g_stats.max_requests_in_add);
+  o += ",\"refused_by_index\":[";
+  for (int i = 0; i <= 40; i++) { if (i) o += ","; o += std::to_string(g_stats.refused_by_index[i]); }
+  o += "],\"refused_by_pos\":{";
+  { bool first = true; for (auto& kv : g_stats.refused_by_pos) { if (!first) o += ","; first = false; o += jstr(kv.first) + ":" + std::to_string(kv.second); } }
+  o += "},\"fault_embed_paths\":{";
+  { bool first = true; for (auto& kv : g_stats.fault_embed_paths) { if (!first) o += ","; first = false; o += jstr(kv.first) + ":" + std::to_string(kv.second); } }
+  o += "}";
   o += ",\"by_size\":[";
   for (int i = 0; i < 7; i++) { if (i) o += ","; o += std::to_string(g_stats.by_size[i]); }
   o += "],\"emit_paths\":{";
